@@ -54,8 +54,8 @@ theorem getElem?_set_self' {α : Type} {l : List α} {k : Nat} {a b : α} (h : l
 theorem inv_setWk {st : LState τ} {k : Nat} {w w' : Wk τ} (hinv : Inv st) (hw : st.wk[k]? = some w)
     (h' : WkInv st.ctl k w') : Inv (setWk st k w') := by
   refine inv_of ?_ ?_
-  · obtain ⟨c1, c2, c3, c4, c5, c6, c7, c8, c9, c10⟩ := hinv.1
-    exact ⟨by simp [setWk, c1], c2, c3, c4, c5, c6, c7, c8, c9, c10⟩
+  · obtain ⟨c1, c2, c3, c4, c5, c6, c7, c8, c9, c10, c11⟩ := hinv.1
+    exact ⟨by simp [setWk, c1], c2, c3, c4, c5, c6, c7, c8, c9, c10, c11⟩
   · intro j wj hj
     by_cases hjk : j = k
     · subst hjk
@@ -123,12 +123,32 @@ theorem crash_wk {c : Ctl.State (Load.State τ) τ} {k : Nat} {w : Wk τ} (h : W
 theorem ctlInv_flags {st st' : LState τ} (hc : CtlInv st) (hwk : st'.wk.length = st.wk.length)
     (h1 : st'.ctl.sched = st.ctl.sched) (h2 : st'.ctl.active = st.ctl.active) (h3 : st'.ctl.nextId = st.ctl.nextId)
     (h4 : st'.ctl.shuttingdown = st.ctl.shuttingdown) (h5 : st'.ctl.shouldstop = st.ctl.shouldstop)
-    (hmono : ∀ n, st.ctl.env.flags.shuttingDown n = true → st'.ctl.env.flags.shuttingDown n = true) : CtlInv st' := by
-  obtain ⟨c1, c2, c3, c4, c5, c6, c7, c8, c9, c10⟩ := hc
+    (hmono : ∀ n, st.ctl.env.flags.shuttingDown n = true → st'.ctl.env.flags.shuttingDown n = true)
+    (hfk : ∀ m ∈ AList.keys st'.ctl.env.flags, m < st.ctl.nextId) : CtlInv st' := by
+  obtain ⟨c1, c2, c3, c4, c5, c6, c7, c8, c9, c10, c11⟩ := hc
   refine ⟨by rw [hwk, h3]; exact c1, by rw [h2, h3]; exact c2, by rw [h2]; exact c3, by rw [h5, h4]; exact c4, ?_, ?_,
-    by rw [h1]; exact c7, by rw [h1]; exact c8, by rw [h1]; exact c9, by rw [h1, h3]; exact c10⟩
+    by rw [h1]; exact c7, by rw [h1]; exact c8, by rw [h1]; exact c9, by rw [h1, h3]; exact c10, by rw [h3]; exact hfk⟩
   · rw [h4, h1]; intro hs n hn; exact hmono n (c5 hs n hn)
   · rw [h1]; intro hs n hn; exact hmono n (c6 hs n hn)
+
+theorem keys_set_mem {κ ν : Type} [DecidableEq κ] (d : AList κ ν) (x : κ) (v : ν) (y : κ) (h : y ∈ AList.keys (AList.set d x v)) :
+    y ∈ AList.keys d ∨ y = x := by
+  induction d with
+  | nil => simp [AList.set, AList.keys] at h; exact Or.inr h
+  | cons p t ih =>
+    simp only [AList.set] at h
+    split at h
+    · rename_i hp
+      simp only [AList.keys, List.map_cons, List.mem_cons] at h ⊢
+      rcases h with h | h
+      · exact Or.inl (Or.inl h)
+      · exact Or.inl (Or.inr h)
+    · simp only [AList.keys, List.map_cons, List.mem_cons] at h ⊢
+      rcases h with h | h
+      · exact Or.inl (Or.inl h)
+      · rcases ih h with h' | h'
+        · exact Or.inl (Or.inr h')
+        · exact Or.inr h'
 
 theorem crash_inv (idsOf : Nat → List τ) {st st' : LState τ} {k : Nat} {b : Bool} (hinv : Inv st)
     (h : step Ctl.loadI idsOf st (.crash k b) = .ok st') : Inv st' := by
@@ -151,12 +171,21 @@ theorem crash_inv (idsOf : Nat → List τ) {st st' : LState τ} {k : Nat} {b : 
     simp only [Option.some.injEq] at hc
     subst hc
     refine inv_of ?_ ?_
-    · refine ctlInv_flags base.1 rfl rfl rfl rfl rfl rfl ?_
-      intro n hn
-      simp only [setWk, Flags.shuttingDown, Contract.flags_get_set] at hn ⊢
-      by_cases hnk : n = k
-      · subst hnk; simpa using hn
-      · simpa [hnk] using hn
+    · refine ctlInv_flags base.1 rfl rfl rfl rfl rfl rfl ?_ ?_
+      · intro n hn
+        simp only [setWk, Flags.shuttingDown, Contract.flags_get_set] at hn ⊢
+        by_cases hnk : n = k
+        · subst hnk; simpa using hn
+        · simpa [hnk] using hn
+      · intro m hm
+        have hkl : k < st.ctl.nextId := by
+          rw [← hinv.1.len]
+          rcases Nat.lt_or_ge k st.wk.length with h' | h'
+          · exact h'
+          · rw [List.getElem?_eq_none h'] at hw; cases hw
+        rcases keys_set_mem _ _ _ _ hm with hm | hm
+        · exact base.1.flagsLt m hm
+        · rw [hm]; exact hkl
     · intro j wj hj
       have hj' : (setWk st k ({ w with alive := false, inbox := [], outbox := w.outbox ++ [.endMarker] } : Wk τ)).wk[j]? = some wj := hj
       have hb := base.wk hj'
